@@ -14,6 +14,20 @@ Proof.
     apply N.eqb_eq in Ec. subst. now left.
 Qed.
 
+Lemma rlookup_None c t : ~ In c (map snd t) -> rlookup c t = None.
+Proof.
+  induction t as [|[s' c'] r IH]; cbn [rlookup map snd]; [reflexivity|]. intros H.
+  rewrite IH by (intros Hin; apply H; now right).
+  destruct (c' =? c) eqn:E; [|reflexivity]. apply N.eqb_eq in E. subst. exfalso. apply H. now left.
+Qed.
+
+(** Characters that are not a value of ESCAPES are left alone (so comparing [escape_text] with the model on the
+    finitely many values of the table and observing identity elsewhere covers every code point). *)
+Lemma esc_char_other T ml c : ~ In c (map snd (esc_table T)) -> esc_char T ml c = [c].
+Proof.
+  intros H. unfold esc_char. rewrite (rlookup_None _ _ H). now destruct (mem c (excl T ml)).
+Qed.
+
 Section Proofs.
 Variable T : tables.
 Variable o : opts.
